@@ -28,6 +28,7 @@ type SchedCase struct {
 	Case
 	Transport string `json:"transport,omitempty"` // "" = response function called directly
 	Name      string `json:"name"`
+	Bound     *int   `json:"bound,omitempty"` // overrides the property's deviation bound
 }
 
 func planOf(kv ...string) Plan {
@@ -218,6 +219,8 @@ func (si *schedInst) Check(x *explore.Exec) (string, string) {
 		return si.checkTermination(x)
 	case "C04":
 		return si.checkFaultScenario(x)
+	case "C13":
+		return si.checkDefer(x)
 	}
 	return "", ""
 }
@@ -421,6 +424,8 @@ func (s *Shared) schedMain(prop, tier string) {
 		cases = c05Cases(tier)
 	case "C04":
 		cases = c04Cases(tier)
+	case "C13":
+		cases = s.c13Cases(tier)
 	}
 	explore.Main(explore.Options{
 		Prop:     prop,
@@ -433,6 +438,9 @@ func (s *Shared) schedMain(prop, tier string) {
 			}
 			if prop == "C05" {
 				b-- // cancellation is an extra event at every point
+			}
+			if prop == "C13" {
+				b = 2
 			}
 			if prop == "C04" {
 				b = 1
@@ -450,7 +458,7 @@ func (s *Shared) schedMain(prop, tier string) {
 				if errs != nil {
 					panic(fmt.Sprintf("corpus operation invalid: %s: %v", c.Op.Text, errs))
 				}
-				out = append(out, &explore.Scenario{Name: c.Name, Meta: c, New: func() explore.Instance {
+				out = append(out, &explore.Scenario{Name: c.Name, Meta: c, Bound: c.Bound, New: func() explore.Instance {
 					return &schedInst{Inst: s.NewInst(c.Case, doc), sc: c, prop: prop}
 				}})
 			}
